@@ -776,7 +776,7 @@ class GroupBy:
         When masking with a chunked array with a slice some chunks may be entirely excluded.
         We need to track this to get the correct set of pointers into the combined result downstream.
         """
-        if mask.step is not None and self.key_is_chunked:
+        if mask.step not in (None, 1) and self.key_is_chunked:
             raise NotImplementedError(
                 "masking with a stepped slicer and chunked group keys is not supported"
             )
